@@ -4,7 +4,7 @@ from . import joinlike, flow, common, c02, c03, c01
 
 PROPERTY = "C05"
 LEVEL = "other"
-CONFIGS_QUICK = ["std"]
+CONFIGS_QUICK = ["std", "alloc"]
 CONFIGS_THOROUGH = ["std", "alloc", "core"]
 EXPLANATION = (
     "Data-flow, counter and short-circuit rules on the MIR of every try_join poll body (tuple arities 1-12, array, Vec): "
